@@ -5,6 +5,7 @@ import (
 	"io"
 	"io/fs"
 	"os"
+	"path/filepath"
 	"sort"
 	"strings"
 
@@ -20,18 +21,18 @@ import (
 // ---------------------------------------------------------------------------------------------
 
 type verifWorld struct {
-	dir        string
-	inFile     string
-	outFile    string // argument passed to the operation ("" = in place)
-	dest       string // path that holds the result on success
-	destExists bool
-	outDistinct bool  // dest is a different file than the input
-	initial    []string
-	failAt     int // the failAt-th table call returns an injected error (0 = none)
-	crashAt    int // the process is killed right before the crashAt-th table call (0 = never)
-	calls      int
-	outcome    int // behaviour of the stubbed processing function
-	panicked   bool
+	dir          string
+	inFile       string
+	outFile      string // argument passed to the operation ("" = in place)
+	dest         string // path that holds the result on success
+	destExists   bool
+	outDistinct  bool // dest is a different file than the input
+	initial      []string
+	failAt       int // the failAt-th table call returns an injected error (0 = none)
+	crashAt      int // the process is killed right before the crashAt-th table call (0 = never)
+	calls        int
+	outcome      int // behaviour of the stubbed processing function
+	panicked     bool
 	stubSawInput bool
 }
 
@@ -338,10 +339,11 @@ func verifRun(op func() error) {
 	}
 }
 
-//verif:stub github.com/pdfcpu/pdfcpu/pkg/api.defaultFileOperations=verifFaultyOperations
-//verif:stub github.com/pdfcpu/pdfcpu/pkg/api.Optimize=verifStubOptimize
 // VerifOptimizeFile: OptimizeFile over all path relations x {no fault, the k-th file system call fails,
 // the process is killed before the k-th call, the processing step fails, the processing step panics}.
+//
+//verif:stub github.com/pdfcpu/pdfcpu/pkg/api.defaultFileOperations=verifFaultyOperations
+//verif:stub github.com/pdfcpu/pdfcpu/pkg/api.Optimize=verifStubOptimize
 func VerifOptimizeFile() {
 	w := verifSetup(vp.Bound("CALLS"))
 	verifRun(func() error { return OptimizeFile(w.inFile, w.outFile, &model.Configuration{}) })
@@ -389,9 +391,10 @@ func verifSetupMerge(maxCalls int) *verifWorld {
 	return w
 }
 
+// VerifMergeCreateFile: MergeCreateFile with new / existing output x faults, crashes, processing error, panic.
+//
 //verif:stub github.com/pdfcpu/pdfcpu/pkg/api.defaultFileOperations=verifFaultyOperations
 //verif:stub github.com/pdfcpu/pdfcpu/pkg/api.Merge=verifStubMerge
-// VerifMergeCreateFile: MergeCreateFile with new / existing output x faults, crashes, processing error, panic.
 func VerifMergeCreateFile() {
 	w := verifSetupMerge(vp.Bound("CALLS"))
 	verifRun(func() error {
@@ -399,9 +402,10 @@ func VerifMergeCreateFile() {
 	})
 }
 
+// VerifMergeAppendFile: MergeAppendFile (existing output is also an input of the merge).
+//
 //verif:stub github.com/pdfcpu/pdfcpu/pkg/api.defaultFileOperations=verifFaultyOperations
 //verif:stub github.com/pdfcpu/pdfcpu/pkg/api.Merge=verifStubMerge
-// VerifMergeAppendFile: MergeAppendFile (existing output is also an input of the merge).
 func VerifMergeAppendFile() {
 	w := verifSetupMerge(vp.Bound("CALLS"))
 	verifRun(func() error {
@@ -409,9 +413,10 @@ func VerifMergeAppendFile() {
 	})
 }
 
+// VerifMergeCreateZipFile: MergeCreateZipFile (two inputs).
+//
 //verif:stub github.com/pdfcpu/pdfcpu/pkg/api.defaultFileOperations=verifFaultyOperations
 //verif:stub github.com/pdfcpu/pdfcpu/pkg/api.MergeCreateZip=verifStubMergeCreateZip
-// VerifMergeCreateZipFile: MergeCreateZipFile (two inputs).
 func VerifMergeCreateZipFile() {
 	w := verifSetupMerge(vp.Bound("CALLS"))
 	verifRun(func() error {
@@ -431,7 +436,9 @@ func VerifWriteAttachments() {
 	dir, err := os.MkdirTemp("", "verifc01att")
 	verifMust(err)
 	long := strings.Repeat("x", 220)
-	pool := []string{"a.txt", "b.txt", long}
+	// ".." is rejected by sanitize.Path: the attachment is written under the fallback name attachment_<n>,
+	// which another attachment may carry literally (collision that must be reported, never overwritten)
+	pool := []string{"a.txt", "b.txt", long, "attachment_2", ".."}
 	oldA := "OLD-" + vp.String(1)
 	hadA := vp.Bool()
 	if hadA {
@@ -464,15 +471,15 @@ func VerifWriteAttachments() {
 		vp.Assert(rerr == nil, "attachment extraction left an unreadable entry behind")
 		ok := n == "a.txt" && hadA && string(b) == oldA
 		for i, a := range aa {
-			ok = ok || (a.FileName == n && string(b) == data[i])
+			ok = ok || (filepath.Base(attachmentOutputPath(dir, i, a)) == n && string(b) == data[i])
 		}
 		vp.Assert(ok, "a file in the output directory holds neither its previous content nor the complete data of an attachment of that name")
 	}
 	if err == nil {
 		vp.Assert(verifTx.failed == 0, "attachment extraction reported success although a file system call failed")
 		for i, a := range aa {
-			b, rerr := os.ReadFile(dir + "/" + a.FileName)
-			vp.Assert(rerr == nil && string(b) == data[i], "attachment extraction reported success but an attachment was not written completely")
+			b, rerr := os.ReadFile(attachmentOutputPath(dir, i, a))
+			vp.Assert(rerr == nil && string(b) == data[i], "attachment extraction reported success but an attachment was not written completely (overwritten by another attachment of the same output name?)")
 		}
 	} else if hadA && verifTx.failed == 0 && aa[0].FileName != "a.txt" && aa[1].FileName != "a.txt" {
 		b, rerr := os.ReadFile(dir + "/a.txt")
